@@ -461,6 +461,10 @@ impl Property for C06 {
         let (c, i) = locate(tier, idx);
         format!("{}#{}: {}", c.name, i, print(&c.program(i)).unwrap_or_default())
     }
+    fn budget_ms(&self) -> u64 {
+        // self-applying programs (`{} ~~`) run to the step cap with a growing frame chain
+        15_000
+    }
     fn run(&self, tier: Tier, idx: u64, cx: &mut Ctx) {
         if idx >= spaces(tier).total() {
             let it = pipeline::item(tier, false, idx - spaces(tier).total());
